@@ -240,6 +240,66 @@ func runC14(c *Ctx) {
 		}
 		c.verdict(okSame, c.nm(fa)+" | block and filter iterators cover the same converted index range", c.P.Pos(fa.Pos()), "same (sourceStartIdx, sourceEndIdx) from targetHeightToImportSourceIndex", "the two import iterators do not cover the same index range derived from the region's heights", c.ats(its)...)
 	})
+	c.rule("C14.G3", "an overlapping file is compared with the stores at both ends of the overlap: in validateChainContinuity, once the header pair at the start of the overlap was verified, success is reachable only through a verified pair at the end of the overlap (block and filter header, verifyBlockAndFilter) or through the edge where the overlap is a single height; the end of the overlap is min(effective tip, import end)", func() {
+		fn := c.fn("(*chainimport.headersImport).validateChainContinuity")
+		ver := hi("verifyHeadersAtTargetHeight")
+		anyMin := func(v ssa.Value) bool {
+			return ir.DerivesFrom(v, func(x ssa.Value) bool {
+				call, ok := x.(*ssa.Call)
+				return ok && isBuiltin("min")(call)
+			})
+		}
+		// overlapEnd: the min() one of whose operands is itself the effective
+		// tip (a min of the two store tips)
+		isMin := func(v ssa.Value) bool {
+			call, ok := ir.Strip(v).(*ssa.Call)
+			if !ok || !isBuiltin("min")(call) {
+				return false
+			}
+			for _, a := range call.Call.Args {
+				if anyMin(a) {
+					return true
+				}
+			}
+			return false
+		}
+		var startV, endV []ssa.Instruction
+		okMode := true
+		modeK := c.importConst("verifyBlockAndFilter")
+		for _, x := range find(fn, callTo(ver)) {
+			a := argsOf(x)
+			if k, isC := ir.ConstInt(a[1]); !isC || k != modeK {
+				okMode = false
+			}
+			if isMin(a[0]) {
+				endV = append(endV, x)
+			} else {
+				startV = append(startV, x)
+			}
+		}
+		construct := c.nm(fn) + " | overlap verified at start and end"
+		if len(startV) != 1 || len(endV) != 1 || !okMode {
+			c.fail(construct, c.P.Pos(fn.Pos()), fmt.Sprintf("%d start / %d end comparison(s) of the overlap (1 each tabled); all in block+filter mode: %v", len(startV), len(endV), okMode))
+			return
+		}
+		gEnd := errNil("verifyHeadersAtTargetHeight(overlapEnd)", endV, 0)
+		// single-height overlap: overlapEnd > overlapStart is false
+		startArg := argsOf(startV[0])[0]
+		single, odd := relGuard("overlapEnd <= overlapStart", fn, isMin, func(v ssa.Value) bool { return v == startArg }, token.LEQ)
+		cut := ir.Union(gEnd.cut(), single.cut())
+		var bad []string
+		for _, s0 := range c.successEdges(errNil("verifyHeadersAtTargetHeight(overlapStart)", startV, 0)) {
+			ir.Walk(s0.b, s0.idx, cut, func(in ssa.Instruction) bool {
+				if r, ok := in.(*ssa.Return); ok && ir.IsNil(ir.RetVal(r, 0)) {
+					bad = append(bad, "return nil at "+c.at(in)+" reachable with a multi-height overlap whose end was never compared with the stores")
+				}
+				return true
+			})
+		}
+		sort.Strings(bad)
+		c.verdict(len(bad) == 0 && len(odd) == 0 && len(single.sites) >= 1 && len(gEnd.sites) >= 1, construct, c.P.Pos(fn.Pos()), "success only through verify(overlapEnd)=nil or overlapEnd <= overlapStart", join(uniq(bad))+join(odd), c.ats(append(startV, endV...))...)
+	})
+
 	c.rule("C14.V1", "the validators see every header that gets written: the import source iterators cover the inclusive index range [start, end]: after a successfully delivered element the sequence ends (returns without a further delivery) only on the edge where the running index is known to be greater than the end index", func() {
 		for _, spec := range []struct{ parent string }{
 			{"(*chainimport.importSourceHeaderIterator).Iterator"},
